@@ -114,6 +114,19 @@ func (E *Engine) genSpanOf() string {
 	b.WriteString("(assert (= (spanSafe nilN) true))\n(assert (forall ((t Int)) (! (= (spanSafe (nilp t)) (spanSafeLocal (nilp t))) :pattern ((spanSafe (nilp t))))))\n")
 	b.WriteString(perCtor.String())
 	b.WriteString("(assert (forall ((l Seq_Node) (n Int)) (! (= (spanSafeList l n) (ite (<= n 0) true (and (spanSafeList l (- n 1)) (spanSafe (Seq_Node.nth l (- n 1)))))) :pattern ((spanSafeList l n)))))\n")
+	b.WriteString(`; spans inside a source of length L: a valid span ends at or before L
+(define-fun inL ((L Int) (s Span)) Bool (or (not (spanValid s)) (<= (Span.End s) L)))
+(lemma hull2-valid-r (forall ((u Span) (s Span)) (! (=> (spanValid s) (spanValid (hull2 u s))) :pattern ((hull2 u s)))))
+(lemma hull2-valid-l (forall ((u Span) (s Span)) (! (=> (spanValid u) (spanValid (hull2 u s))) :pattern ((hull2 u s)))))
+(lemma hull2-in (forall ((L Int) (u Span) (s Span)) (! (=> (and (inL L u) (inL L s)) (inL L (hull2 u s))) :pattern ((inL L (hull2 u s))))))
+(define-fun-rec spansInL ((L Int) (l Seq_Node) (n Int)) Bool
+  (ite (<= n 0) true (and (spansInL L l (- n 1)) (inL L (SpanOf (Seq_Node.nth l (- n 1)))))))
+(lemma SpanOfList-in :induction n (forall ((L Int) (l Seq_Node) (n Int)) (! (=> (spansInL L l n) (inL L (SpanOfList l n))) :pattern ((spansInL L l n) (SpanOfList l n)))))
+(lemma SpanOfList-valid :induction n (forall ((l Seq_Node) (n Int) (i Int)) (! (=> (and (<= 0 i) (< i n) (spanValid (SpanOf (Seq_Node.nth l i)))) (spanValid (SpanOfList l n))) :pattern ((SpanOfList l n) (SpanOf (Seq_Node.nth l i))))))
+(lemma SpanOfList-snoc :induction n (forall ((l Seq_Node) (x Node) (n Int)) (! (=> (<= n (Seq_Node.len l)) (= (SpanOfList (Seq_Node.snoc l x) n) (SpanOfList l n))) :pattern ((SpanOfList (Seq_Node.snoc l x) n)))))
+(lemma spansInL-snoc :induction n (forall ((L Int) (l Seq_Node) (x Node) (n Int)) (! (=> (<= n (Seq_Node.len l)) (= (spansInL L (Seq_Node.snoc l x) n) (spansInL L l n))) :pattern ((spansInL L (Seq_Node.snoc l x) n)))))
+(lemma spanSafeList-snoc :induction n (forall ((l Seq_Node) (x Node) (n Int)) (! (=> (<= n (Seq_Node.len l)) (= (spanSafeList (Seq_Node.snoc l x) n) (spanSafeList l n))) :pattern ((spanSafeList (Seq_Node.snoc l x) n)))))
+`)
 	b.WriteString("(lemma spanSafeList-nth :induction n (forall ((l Seq_Node) (n Int) (i Int)) (! (=> (and (spanSafeList l n) (<= 0 i) (< i n)) (spanSafe (Seq_Node.nth l i))) :pattern ((spanSafeList l n) (Seq_Node.nth l i)))))\n")
 	return b.String()
 }
@@ -233,6 +246,8 @@ func (E *Engine) registerGenerated() {
 	E.Spec.Funs["spanSafe"] = SpecFun{Name: "spanSafe", Args: []string{"Node"}, Ret: "Bool"}
 	E.Spec.Funs["spanSafeList"] = SpecFun{Name: "spanSafeList", Args: []string{"Seq_Node", "Int"}, Ret: "Bool"}
 	E.Spec.Funs["spanSafeLocal"] = SpecFun{Name: "spanSafeLocal", Args: []string{"Node"}, Ret: "Bool"}
+	E.Spec.Funs["inL"] = SpecFun{Name: "inL", Args: []string{"Int", "Span"}, Ret: "Bool"}
+	E.Spec.Funs["spansInL"] = SpecFun{Name: "spansInL", Args: []string{"Int", "Seq_Node", "Int"}, Ret: "Bool"}
 	E.Spec.Funs["height"] = SpecFun{Name: "height", Args: []string{"Node"}, Ret: "Int"}
 	E.Spec.Funs["lheight"] = SpecFun{Name: "lheight", Args: []string{"Seq_Node"}, Ret: "Int"}
 	add("consts", E.genConsts())
